@@ -23,3 +23,107 @@ Theorem C10_inventory_meaning :
     forall f p a, In (f, (p, a)) cur -> exists p' a', lookup_site f known = Some (p', a') /\ p <= p' /\ a <= a'.
 Proof. exact sites_within_spec. Qed.
 Print Assumptions C10_inventory_meaning.
+
+(* ===== Crash outcomes inside a model: the slice + offset + holes sequence representations (Rep/SeqSafe.v) =====
+   The model transcribes rel/value_set_array.go, value_set_str.go, value_set_bytes.go, expr_offset.go and
+   Concatenate with Go's crashes in it (index / slice bounds / makeslice panics, two's complement int, the
+   float conversions, loops on fuel).  PARTIAL: the theorems below cover every method of the byte-array
+   representation, the queries of arrays, and the enumeration loops of arrays and byte arrays, for EVERY value
+   satisfying the representation invariant and EVERY argument; Array.With/Without/Where and the String methods are
+   transcribed and run against the implementation by the check (Check/C10Check.v) but their absence of panics is not
+   proved yet.  The two [_refuted] statements are crashes the faithful model HAS outside the recorded regions; both
+   were replayed on the implementation and are recorded as open findings. *)
+From Arrai Require Import Rep.SeqSafe Proofs.SeqSafeP.
+Import ListNotations.
+Open Scope Z_scope.
+
+(* every method of a byte array, on every argument value (any kind, any index incl. fractional, negative, huge,
+   NaN): a value or an ordinary error - except that With may ask make() for more than the allocation limit,
+   and then only inside the dense-storage region, given as a predicate on (offset, len, index) *)
+Theorem C10_sequence_ops_never_panic_partial :
+  forall (max_alloc : Z) (V : Type), 0 < max_alloc <= 281474976710656 ->
+  forall (b : byt), inv_byt max_alloc b -> forall (x : arg V),
+    ok (byt_has V b x) /\ ok (byt_call V b x) /\ ok (byt_without V b x) /\
+    forall atf bf,
+      match byt_with max_alloc V b (int_of_float atf) (byte_of_float bf) with
+      | Val _ | ErrOrd => True
+      | Panic s => s = SMakeslice /\ dense_region_byt max_alloc (boff b) (len (bbytes b)) (int_of_float atf) = true
+      | Hang => False
+      end.
+Proof.
+  intros max_alloc V Hmax b Hb x. repeat split.
+  - exact (byt_has_safe max_alloc V Hmax b x Hb).
+  - exact (byt_call_safe V b x).
+  - exact (okv_ok _ _ (byt_without_safe max_alloc V Hmax b x Hb)).
+  - intros atf bf. pose proof (byt_with_safe max_alloc V Hmax b (int_of_float atf) (byte_of_float bf) Hb (int_of_float_range atf)) as H.
+    destruct (byt_with max_alloc V b (int_of_float atf) (byte_of_float bf)); auto.
+Qed.
+Print Assumptions C10_sequence_ops_never_panic_partial.
+
+(* the queries of an array never crash, whatever the argument *)
+Theorem C10_array_queries_never_panic :
+  forall (max_alloc : Z) (V : Type) (veq : V -> V -> bool), 0 < max_alloc <= 281474976710656 ->
+  forall (a : arr V), inv_arr max_alloc V a -> forall (x : arg V), ok (arr_has V veq a x) /\ ok (arr_call V a x).
+Proof.
+  intros max_alloc V veq Hmax a Ha x. split.
+  - exact (arr_has_safe max_alloc V veq Hmax a x Ha).
+  - exact (arr_call_safe V a x).
+Qed.
+Print Assumptions C10_array_queries_never_panic.
+
+(* With / Without of a byte array give a value that satisfies the invariant again (or leave the representation) *)
+Theorem C10_sequence_ops_preserve_invariant_partial :
+  forall (max_alloc : Z) (V : Type), 0 < max_alloc <= 281474976710656 ->
+  forall (b : byt), inv_byt max_alloc b -> forall (x : arg V) atf bf,
+    okv (byt_without V b x) (inv max_alloc V) /\
+    (forall r, byt_with max_alloc V b (int_of_float atf) (byte_of_float bf) = Val r -> inv max_alloc V r).
+Proof.
+  intros max_alloc V Hmax b Hb x atf bf. split.
+  - exact (byt_without_safe max_alloc V Hmax b x Hb).
+  - intros r E. pose proof (byt_with_safe max_alloc V Hmax b (int_of_float atf) (byte_of_float bf) Hb (int_of_float_range atf)) as H.
+    rewrite E in H. exact H.
+Qed.
+Print Assumptions C10_sequence_ops_preserve_invariant_partial.
+
+(* every MoveNext loop ends within its fuel (len steps per call, len + 1 calls) and the enumeration visits exactly
+   the non-hole cells, each once, in index order: arrays (the loop that would spin on trailing holes) and byte arrays *)
+Theorem C10_enumeration_terminates :
+  forall (max_alloc : Z) (V : Type), 0 < max_alloc <= 281474976710656 ->
+  (forall (a : arr V), inv_arr max_alloc V a -> arr_enum V a = Val (items_from V (aoff V a) 0 (avals V a))) /\
+  (forall (b : byt), inv_byt max_alloc b -> byt_enum b = Val (cells_from (boff b) 0 (bbytes b))).
+Proof.
+  intros max_alloc V Hmax. split.
+  - intros a Ha. exact (arr_enum_terminates max_alloc V Hmax a Ha).
+  - intros b Hb. exact (byt_enum_terminates max_alloc Hmax b Hb).
+Qed.
+Print Assumptions C10_enumeration_terminates.
+
+(* without the invariant the array loop does not end: a trailing hole exhausts any fuel *)
+Example C10_trailing_hole_hangs :
+  arr_enum Z {| avals := [Some 1; None]; aoff := 0; acnt := 1 |} = Hang.
+Proof. vm_compute. reflexivity. Qed.
+
+(* REFUTED (finding KF-C10-32): a character tuple with a negative rune breaks the string invariant and the next
+   Without walks off the slice *)
+Theorem C10_negative_rune_refuted :
+  exists s, as_string 4294967296 Z [(0, -1); (1, 97)] = Val (RStr s) /\
+            str_without 4294967296 Z s (AChar (FInt 1) (FInt 97)) = Panic SIndex.
+Proof. exact negative_rune_crash. Qed.
+Print Assumptions C10_negative_rune_refuted.
+
+(* REFUTED (finding KF-C10-33): an offset that moves the index range across the int64 limit is accepted, and
+   rebuilding the value from its enumeration indexes an empty slice *)
+Theorem C10_index_range_wrap_refuted :
+  let a := {| avals := [Some 1; Some 2; Some 3]; aoff := 0; acnt := 3 |} in
+  inv_arr 4294967296 Z a /\
+  exists a', step 4294967296 Z Z.eqb (RArr Z a) (OOffset Z (ANum (FInt max_int))) = Val (RArr Z a') /\
+             inv_arr 4294967296 Z a' /\
+             seq_concat 4294967296 Z (RArr Z a') (RArr Z a) = Panic SIndex.
+Proof. exact index_range_wrap_crash. Qed.
+Print Assumptions C10_index_range_wrap_refuted.
+
+(* the hypotheses are satisfiable by non-trivial values *)
+Example C10_inv_arr_example : inv_arr 4294967296 Z {| avals := [Some 1; None; None; Some 4]; aoff := -3; acnt := 2 |}.
+Proof. vm_compute. repeat split; congruence. Qed.
+Example C10_inv_byt_example : inv_byt 4294967296 {| bbytes := [1; 2]; boff := 3 |}.
+Proof. vm_compute. repeat split; congruence. Qed.
